@@ -426,8 +426,9 @@ class Expr:
             value, like = self.operands
             r = (
                 "z_" + self.kind,  # prefix `z_` ensures that constants are sorted as largest kinds
-                # str(value) tells -0.0 from 0.0, which compare (and hash) equal
-                value.key if isinstance(value, Expr) else (value, type(value).__name__, str(value)),
+                # The type name comes first so that ordering keys never compares values of different
+                # types (1.5 > "eps" raises); str(value) tells -0.0 from 0.0, which compare (and hash) equal
+                value.key if isinstance(value, Expr) else (type(value).__name__, value, str(value)),
                 like.key,
             )
         else:
